@@ -6,6 +6,8 @@ import GoCrypt.Props.C10General
 import GoCrypt.Props.TiWf
 import GoCrypt.Props.TypeInfoIR
 import GoCrypt.Props.CodecIR
+import GoCrypt.Props.CodecIRLink
+import GoCrypt.Props.CodecIRU
 
 /-!
 # C20 — Unmarshal accepts only respellings of what Marshal would have written
@@ -108,4 +110,17 @@ theorem respell_reflexive_examples :
 #print axioms GoCrypt.CodecIR.no_unknown_nodes
 #print axioms GoCrypt.CodecIR.marshal_eq_model
 #print axioms GoCrypt.CodecIR.marshal_eq_marshalRaw
+-- Marshal with getTypeInfo linked to the regenerated type-info layer (Props/CodecIRLink.lean): no hypothesis about getTypeInfo beyond a cold cache
+#print axioms GoCrypt.CodecIR.getTypeInfoOk_of_coldPost
+#print axioms GoCrypt.CodecIR.getTypeInfoErr_of_coldPost
+#print axioms GoCrypt.CodecIR.marshal_getTypeInfo_error
+#print axioms GoCrypt.CodecIR.marshal_eq_model_typeInfoOf
+-- the Unmarshal side (Props/CodecIRU.lean): Unmarshal/unmarshal/newUnmarshalError/unmarshalIndirect are regenerated (no unknown node) and run, as #guard examples, against Codec.unmarshal + finalVals on six scheme structs and every error class;
+-- proved so far: pointer allocation, the error record, the text half of unmarshal (= fieldText: trimming, length/inline rule, alphabet check) and the whole of unmarshal for string fields; the remaining kinds and the field loop are tied by the correspondence suites
+#print axioms GoCrypt.CodecIRU.unmarshalIndirect_allocates
+#print axioms GoCrypt.CodecIRU.newUnmarshalError_eq
+#print axioms GoCrypt.CodecIRU.newErrSpec_callIn
+#print axioms GoCrypt.CodecIRU.fieldText_eq_lenRule
+#print axioms GoCrypt.CodecIRU.unmarshal_string
+#print axioms GoCrypt.CodecIRU.unmarshalText_witness
 end GoCrypt.C20
